@@ -406,7 +406,16 @@ impl Check for C20 {
             let d = doc::gen_any(&mut r);
             let d = if k % 2 == 0 { multiline(&mut r, &d) } else { d };
             let (m, _) = mutate::mutate(&mut r, &d);
-            let m = if r.chance(1, 4) { mutate::mutate(&mut r, &m).0 } else { m };
+            let mut m = if r.chance(1, 4) { mutate::mutate(&mut r, &m).0 } else { m };
+            // what an entry point might strip or skip before it parses (positions must still be
+            // those of the bytes the caller handed in): a byte order mark, once or twice, a
+            // shebang-like first line, leading NULs, a leading blank line
+            if r.chance(1, 12) {
+                let pre: &[u8] = *r.pick(&[b"\xef\xbb\xbf" as &[u8], b"\xef\xbb\xbf\xef\xbb\xbf", b"\xef\xbb\xbf\n", b"\xfe\xff", b"\xff\xfe", b"\x00", b"\n\xef\xbb\xbf", b"#!x\n", b")]}',\n"]);
+                let mut v = pre.to_vec();
+                v.extend_from_slice(&m);
+                m = v;
+            }
             emit(Case::new("mutated", m));
         }
         let total = tokens::count(3);
